@@ -15,6 +15,7 @@ import (
 	"encoding/json"
 	"fmt"
 	"os"
+	"runtime/debug"
 	"strconv"
 	"strings"
 
@@ -118,7 +119,7 @@ func differs(impl implRes, ref RefResult) bool {
 
 func divergenceKind(impl implRes, ref RefResult) string {
 	switch {
-	case impl.Status == "go-panic" || impl.Status == "hang" || impl.Status == "died":
+	case impl.Status == "go-panic" || impl.Status == "hang" || impl.Status == "died" || impl.Status == "output-limit":
 		return impl.Status
 	case impl.Status == "parse-error":
 		return "rejected"
@@ -185,7 +186,7 @@ func (r *runner) flush() {
 	ask := make([]int, len(cases)) // index of the case's first answer line, -1 = not asked
 	var lines []string
 	for i, g := range cases {
-		slow := impls[i].Status == "hang" || impls[i].Status == "died" || impls[i].Ms > 400
+		slow := impls[i].Status == "hang" || impls[i].Status == "died" || impls[i].Status == "output-limit" || impls[i].Ms > 400
 		if strings.HasPrefix(g.Stream, "known") && slow {
 			ask[i] = -1
 			continue
@@ -222,7 +223,7 @@ func (r *runner) flush() {
 		ref := refs[i]
 		impl := implRes{Out: impls[i].Out, Status: impls[i].Status, Detail: impls[i].Detail}
 		feats := p.Features()
-		key := g.Stream + ":" + p.Sexp()
+		key := g.Stream + ":" + hash64(p.Sexp()) // a short key: the harness keeps no program texts
 		c.Eval(key, len(feats) >= 2 && len(ref.Out) > 0)
 		c.Hit("stream:" + g.Stream)
 		c.Hit("status:" + ref.Status)
@@ -244,7 +245,7 @@ func (r *runner) flush() {
 			spec := parseModel(answers[ask[i]+1])
 			nodes := answers[ask[i]+2]
 			frag := answers[ask[i]+3]
-			if model.Status == "timeout" && (impl.Status == "died" || impl.Status == "hang") {
+			if model.Status == "timeout" && (impl.Status == "died" || impl.Status == "hang" || impl.Status == "output-limit") {
 				c.Hit("both-diverge") // the model runs out of fuel, the interpreter out of stack / time
 			} else if model.Status != impl.Status || model.Out != impl.Out {
 				c.Mismatch(g, impl.String(), model.String(), "Model.Ctl.run vs origami")
@@ -257,7 +258,7 @@ func (r *runner) flush() {
 			}
 			text, problems, perr := impls[i].Nodes, impls[i].Problems, impls[i].NodeErr
 			switch {
-			case impl.Status == "hang" || impl.Status == "died":
+			case impl.Status == "hang" || impl.Status == "died" || impl.Status == "output-limit":
 			case perr != "":
 				if impl.Status != "parse-error" {
 					c.Mismatch(g, perr, nodes, "node tree: parser failed")
@@ -268,6 +269,7 @@ func (r *runner) flush() {
 				c.Mismatch(g, text, nodes, "node tree: parser vs Model.Ctl.compile")
 			default:
 				c.Res.Traces++
+				nodeHistogram(c, text)
 			}
 		}
 
@@ -310,6 +312,27 @@ func (r *runner) flush() {
 			c.Note("stopped after %d violations", c.Res.ViolationCount)
 		}
 	}
+}
+
+// nodeHistogram counts, per kind, the specialised (fast-path) and general nodes the parser built
+// for a program whose tree was compared with the model's.
+var nodeKinds = []string{"FastAssign(copy", "FastAssign(mul", "FastAssign(add", "AssignVar(", "VarIntLe(", "StmtIncr(",
+	"PostIncr(", "PostDecr(", "PreIncr(", "PreDecr(", "Bin(le", "Bin(lt", "Match(", "Switch(", "Foreach(", "For(", "While(", "Do(", "Call("}
+
+func nodeHistogram(c *vh.Ctx, tree string) {
+	for _, k := range nodeKinds {
+		if n := strings.Count(tree, k); n > 0 {
+			c.HitN("node:"+strings.TrimRight(k, "("), n)
+		}
+	}
+}
+
+func hash64(s string) string {
+	h := uint64(1469598103934665603)
+	for i := 0; i < len(s); i++ {
+		h = (h ^ uint64(s[i])) * 1099511628211
+	}
+	return strconv.FormatUint(h, 36)
 }
 
 func bucket(n int) int {
@@ -680,12 +703,9 @@ func corpus() []gcase {
 // ---------------------------------------------------------------- run
 
 func Run(c *vh.Ctx) {
+	debug.SetMemoryLimit(2 << 30) // the parent keeps counters, a bounded sample and the first violations only
 	r := &runner{c: c, shrunk: map[string]int{}, pool: newPool(c.Workers)}
-	defer func() {
-		fmt.Fprintln(os.Stderr, "closing pool")
-		r.pool.close()
-		fmt.Fprintln(os.Stderr, "pool closed")
-	}()
+	defer r.pool.close()
 	if c.ModelPath != "" {
 		m, err := vh.StartModel(c.ModelPath)
 		if err != nil {
@@ -697,6 +717,13 @@ func Run(c *vh.Ctx) {
 		}
 	}
 	if len(c.ReplayRaw) > 0 {
+		var nr struct {
+			Neigh *neighCase `json:"neigh"`
+		}
+		if json.Unmarshal(c.ReplayRaw, &nr) == nil && nr.Neigh != nil {
+			judgeNeigh(r, []neighCase{*nr.Neigh})
+			return
+		}
 		var g gcase
 		if err := json.Unmarshal(c.ReplayRaw, &g); err != nil || g.Prog == nil {
 			c.Note("bad replay: %v", err)
@@ -730,6 +757,10 @@ func Run(c *vh.Ctx) {
 	if !r.stopped {
 		c.Res.Exhaustive = true
 		c.Res.ExhaustiveWhat = fmt.Sprintf("all two-level skeletons: outer in {while,do,for,foreach,switch} x inner in {none,if,while,do,for,foreach,switch} x jump in {none,break,continue,return} x {unguarded, guarded by the counters} x {before, after the inner echo} x {main program, function body called twice}, minus those with statements behind a `break` written directly in a case body (rejected by the switch parser): %d programs with level 1, %d with level 2 (known stream)", nsk, nm)
+	}
+	nn := neighbourhood(r)
+	if !r.stopped {
+		c.Res.ExhaustiveWhat += fmt.Sprintf("; the fast-path neighbourhood of counted loops (harness-only: header shapes x what the body does to the loop variable, incl. reference alias, closure capture, array index, unset, parameter / static as loop variable): %d programs", nn)
 	}
 	// seeded programs
 	n := c.N(1500, 60000)
